@@ -108,6 +108,23 @@ def fused_creation(x):
         return False
 
 
+def ragged(x):
+    """does some expression of the lowered collection have an axis whose blocks are not all equal up to a shorter LAST block?
+    (the regime of finding C21-A: block-independence is verified on first / middle / last probe blocks only)"""
+    try:
+        import itertools as _it
+        for e in _it.chain(x.expr.walk(), x._lowered_expr.walk()):
+            ch = getattr(e, "chunks", None)
+            if ch is None:
+                continue
+            for c in ch:
+                if len(c) > 2 and len(set(c[:-1])) > 1 or (len(c) > 1 and c[-1] > c[0]):
+                    return True
+    except Exception:  # noqa: BLE001
+        pass
+    return False
+
+
 def check_collection(chk, x, desc, tag):
     """one collection alone"""
     try:
@@ -146,7 +163,7 @@ def check_collection(chk, x, desc, tag):
         sig = {"class": "records", "problem": problems[0][:24], "root_op": tag}
         if kind != "block-shape" and any("differs between the records path" in p_ for p_ in problems) and fused_creation(x):
             # the wrongly shaped block of finding C21-A consumed by a reduction: same shape, other value
-            sig = {"class": "records", "kind": "block-value-downstream-of-fused-creation", "fused_creation": True}
+            sig = {"class": "records", "kind": "block-value-downstream-of-fused-creation", "fused_creation": True, "ragged_chunks": ragged(x)}
         if kind == "block-shape":
             # which layer produced the records of the wrong block: the native pure-Python FusedBlockwiseLayer?
             sig["kind"] = kind
@@ -682,6 +699,24 @@ def directed_collections(chk, da):
             (f"x*x[{n},{c}]", lambda s=src: (lambda x: x * x + x.T.T)(s())),
             (f"tril[{n},{c}]", lambda s=src: da.tril(s())),
             (f"x.T.sum(0)-x.sum(1)[{n},{c}]", lambda s=src: (lambda x: x.T.sum(axis=0) - x.sum(axis=1))(s())),
+        ]
+    pn, qn = np.arange(12.0).reshape(4, 3) * 2, np.arange(12.0).reshape(4, 3)[::-1] * 5 + 1
+
+    def two(c):
+        return da.from_array(pn, chunks=c), da.from_array(qn, chunks=c)
+
+    def sub_id(u, w, block_id=None):
+        return u - w + (0 if block_id is None else block_id[0])
+    for c in ((2, 3), (1, 3), (2, 1), (4, 3)):
+        fams += [
+            (f"p-q+ones[{c}]", lambda c=c: (lambda p, q: p - q + da.ones((4, 3), chunks=c))(*two(c))),
+            (f"q-p+ones[{c}]", lambda c=c: (lambda p, q: q - p + da.ones((4, 3), chunks=c))(*two(c))),
+            (f"(p-q)*full[{c}]", lambda c=c: (lambda p, q: (p - q) * da.full((4, 3), 3.0, chunks=c))(*two(c))),
+            (f"p/q-zeros[{c}]", lambda c=c: (lambda p, q: p / q - da.zeros((4, 3), chunks=c))(*two(c))),
+            (f"map_blocks(u-w+block_id)(p,q)[{c}]", lambda c=c: (lambda p, q: da.map_blocks(sub_id, p + 0, q + 0, dtype="f8"))(*two(c))),
+            (f"map_blocks(u-w+block_id)(q,p)[{c}]", lambda c=c: (lambda p, q: da.map_blocks(sub_id, q + 0, p + 0, dtype="f8"))(*two(c))),
+            (f"map_overlap(u-w)(p,q)[{c}]", lambda c=c: (lambda p, q: da.map_overlap(lambda u, w: u - w, p, q, depth=1, boundary="reflect", dtype="f8"))(*two(c))),
+            (f"map_overlap(u-w)(q,p)[{c}]", lambda c=c: (lambda p, q: da.map_overlap(lambda u, w: u - w, q, p, depth=1, boundary="reflect", dtype="f8"))(*two(c))),
         ]
     for name, mk in fams:
         _materialize._LOWER_CACHE.clear()
